@@ -1,12 +1,12 @@
 #!/bin/bash
 # Apply each mutation to a scratch copy of the snapshot and run the quick check against it.
 # usage: mutation_tests/C14/run.sh [m1 m2 … | revert:<fix commit>]     (run from the framework root)
-SNAP=${VERIF_SNAP:-/tmp/work/repo_snap7}
+SNAP=${VERIF_SNAP:-/tmp/work/repo_snap9}
 MUT=/tmp/work/mut_C14
 HERE=$(cd "$(dirname "$0")" && pwd)
 ROOT=$(cd "$HERE/../.." && pwd)
 cd "$ROOT"
-ms=${@:-m1 m2 m3 m4 m5 m6 m7 m8 m9}
+ms=${@:-m1 m2 m3 m4 m5 m6 m7 m8 m9 m10 m11 m12}
 restore_pins() {
   VERIF_REPO="$SNAP" /venv/bin/python -c "
 import sys; sys.path.insert(0,'.')
@@ -18,7 +18,7 @@ for m in $ms; do
   find "$MUT" -name __pycache__ -prune -exec rm -rf {} + 2>/dev/null
   if [[ "$m" == revert:* ]]; then
     # revert a fix: commit on the scratch copy (regression test for a repaired defect)
-    (cd "$MUT" && git show "${m#revert:}" | patch -s -R -p1) || { echo "$m: revert failed"; continue; }
+    (cd "$MUT" && git show "${m#revert:}" | patch -s -R -p1 -F3) || { echo "$m: revert failed"; continue; }
   else
     (cd "$MUT" && patch -s -p1 < "$HERE/$m.diff") || { echo "$m: patch failed"; continue; }
   fi
